@@ -285,7 +285,7 @@ def conclude(prop: Any, tier: str, seed: int, budget: dict[str, Any], results: l
         "wall_s": round(wall, 2),
         "violations": n_viol,
     }
-    EVIDENCE_DIR.mkdir(exist_ok=True)
+    EVIDENCE_DIR.mkdir(parents=True, exist_ok=True)
     (EVIDENCE_DIR / f"{pid}.json").write_text(json.dumps(evidence, indent=1, sort_keys=True))
 
     for mech, k in sorted(known.items()):
